@@ -198,7 +198,7 @@ class OnionWorld:
                     "goal": ci.goal_hops, "hops": [self.name_of_peer(h.peer) for h in ci.hops],
                     "unv": self.name_of_peer(ci.unverified_hop.peer) if ci.unverified_hop else "none",
                     "via": self.name_of_addr(ci.hop.address) if (ci.hops or ci.unverified_hop) else "none",
-                    "act": int(round((ci.last_activity - self.t0) * MS)) if ci.hops else 0,
+                    "act": int(round((ci.last_activity - self.t0) * MS)) if ci.hops and getattr(self, "compare_act", False) else 0,
                     "closing": ci.state == "CLOSING", "early": ci.relay_early_count,
                     "ctype": {"RP_DOWNLOADER": "RPD", "RP_SEEDER": "RPS"}.get(ci.ctype, ci.ctype),
                     "hs": ci.hs_session_keys is not None}]
@@ -244,6 +244,7 @@ class OnionWorld:
                           "origin": "null" if tuple(origin) == ("0.0.0.0", 0) else "outside"}
                          for (n, c, origin, data) in self.raw_log]
         st["transports_open"] = {nm: self.open_transports(nm) for nm in self.names}
+        st["cmpact"] = bool(getattr(self, "compare_act", False))
         return st
 
     def open_transports(self, nm):
